@@ -18,9 +18,18 @@
 (*   kernel (input inp, an RREF without zero rows) every returned row is   *)
 (*          annihilated by inp, the rows span Kernel(inp) and there are    *)
 (*          2-log(|Kernel|) of them                                        *)
+(*   symgen (tn = 2q, the rows of tA are the terms (x|z) of a Hamiltonian)  *)
+(*          every returned word commutes with every term (symplectic form), *)
+(*          the words generate the whole symmetry group (brute force over  *)
+(*          all 2^tn words) and there are 2-log(|group|) of them           *)
+(*   rowsel (RowCol row elimination on the regular matrix inp, unit vector *)
+(*          e_val, node set out2) the returned rows are                    *)
+(*          (supp(c) + {val}) restricted to the nodes for a selection c of *)
+(*          rows of inp whose sum is e_val (brute force over 2^im);        *)
+(*          singular inp: not judged, counted                              *)
 (* Bases/selected columns are passed as ROWS (transposed) so that empty    *)
 (* shapes stay representable.  Output: <<"F", tid, event, clause>> for     *)
-(* every failing event and <<"V", tid, #failing, #drift, #ood, #ood-differs>> per trace. *)
+(* every failing event and <<"V", tid, #failing, #drift, #ood, #ood-differs, #rowsel-not-judged>> per trace. *)
 (***************************************************************************)
 EXTENDS GF2, Json, IOUtils
 CONSTANT NTRACES
@@ -85,12 +94,41 @@ CheckKernel(ev) ==
   ELSE IF Cardinality(ker) # 2^k THEN "kernel:not-independent"
   ELSE ""
 
+\* symmetry generators of the Hamiltonian whose terms are the rows (x|z) of tA (tn = 2q), returned as rows (x|z)
+CheckSymgen(ev) ==
+  LET k == ev.om  q == tn \div 2  G == SymGroup(tA, tm, q) IN
+  IF ~(tn > 0 /\ tn % 2 = 0) THEN "symgen:driver-called-on-odd-width"
+  ELSE IF ev.exc # "" THEN "symgen:exception"
+  ELSE IF ~(ev.on = tn /\ IsBitMat(ev.out, k, tn)) THEN "symgen:shape"
+  ELSE IF \E i \in 1..k : \E r \in 1..tm : Symp(tA[r], ev.out[i], q) # 0 THEN "symgen:generator-does-not-commute-with-a-term"
+  ELSE IF RowSpace(ev.out, k, tn) # G THEN "symgen:does-not-generate-the-symmetry-group"
+  ELSE IF Cardinality(G) # 2^k THEN "symgen:not-independent"
+  ELSE ""
+
+\* RowCol row selection on the regular matrix inp (im x im) for the unit vector e_val among the nodes out2[1] (indicator):
+\* the returned set out[1] (indicator) must be (supp(c) \cup {val}) \cap nodes for a selection c of rows whose sum is e_val
+RowselWellFormed(ev) == /\ ev.im \in 1..30 /\ IsBitMat(ev.inp, ev.im, ev.im) /\ ev.val \in 1..ev.im
+                        /\ ev.o2m = 1 /\ IsBitMat(ev.out2, 1, ev.im)
+RowselJudged(ev) == RowselWellFormed(ev) /\ Cardinality(RowSpace(ev.inp, ev.im, ev.im)) = 2^ev.im
+CheckRowsel(ev) ==
+  LET k == ev.im  i == ev.val IN
+  IF ~RowselWellFormed(ev) THEN "rowsel:driver-malformed-event"
+  ELSE IF ~RowselJudged(ev) THEN ""                                      \* singular matrix: outside the domain, counted
+  ELSE IF ev.exc # "" THEN "rowsel:raised-on-regular-matrix"
+  ELSE IF ~(ev.om = 1 /\ ev.on = k /\ IsBitMat(ev.out, 1, k)) THEN "rowsel:shape"
+  ELSE IF ~\E c \in RowSelections(ev.inp, i, k) :
+             \A j \in 1..k : (ev.out[1][j] = 1) <=> ((c[j] = 1 \/ j = i) /\ ev.out2[1][j] = 1)
+       THEN "rowsel:selected-rows-do-not-sum-to-the-unit-vector"
+  ELSE ""
+
 Check(ev) == CASE ev.op = "rref" -> CheckRref(ev)
                [] ev.op = "rank" -> CheckRank(ev)
                [] ev.op = "solve" -> CheckSolve(ev)
                [] ev.op = "indep" -> CheckIndep(ev)
                [] ev.op = "basis" -> CheckBasis(ev)
                [] ev.op = "kernel" -> CheckKernel(ev)
+               [] ev.op = "symgen" -> CheckSymgen(ev)
+               [] ev.op = "rowsel" -> CheckRowsel(ev)
                [] OTHER -> "unknown-op"
 IsDrift(ev) == (ev.op = "solve" /\ SolveDrift(ev)) \/ (ev.op = "basis" /\ BasisDrift(ev))
 IsOod(ev) == ev.op = "indep" /\ ~IndepDomain
@@ -114,7 +152,8 @@ TDone == /\ l = 2 /\ l' = 3
                /\ PrintT(<<"V", tid, Cardinality(failing),
                            Cardinality({k \in 1..Len(evs) : vd[k] = "" /\ IsDrift(evs[k])}),
                            Cardinality({k \in 1..Len(evs) : IsOod(evs[k])}),
-                           Cardinality({k \in 1..Len(evs) : OodDiffers(evs[k])})>>)
+                           Cardinality({k \in 1..Len(evs) : OodDiffers(evs[k])}),
+                           Cardinality({k \in 1..Len(evs) : evs[k].op = "rowsel" /\ RowselWellFormed(evs[k]) /\ ~RowselJudged(evs[k])})>>)
          /\ UNCHANGED <<tid, rs, cs, vd>>
 TNext == TPrep \/ TAll \/ TDone
 \* the spaces the verdicts are decided against are what they claim to be
